@@ -420,6 +420,29 @@ int main(int argc, char **argv) {
           sdk_quiet_gpio = 0;
           snapshot(0);
         }
+      } else if (!strcmp(op, "acprobe") && ops_ntok == 7) {
+        /* C10 probe: idx step up_time_us down_time_us inMove closing_ms -> one call of the real
+           supla_esp_gpio_rs_autocalibrate from position 50, no flags; relay requests seen through the set_relay hook */
+        int i = atoi(ops_tok[1]);
+        if (i < 0 || i >= RS_MAX_COUNT || !supla_rs_cfg[i].up) sdk_out("BADOP");
+        else {
+          supla_roller_shutter_cfg_t *r = &supla_rs_cfg[i];
+          r->autoCal_step = atoi(ops_tok[2]);
+          r->up_time = strtoul(ops_tok[3], 0, 10); r->down_time = strtoul(ops_tok[4], 0, 10);
+          *r->auto_closing_time = strtoul(ops_tok[6], 0, 10); *r->auto_opening_time = 0;
+          *r->position = 50; *r->tilt = 0; r->flags = 0;
+          int saved = fw_hook_rs_log; fw_hook_rs_log = 1;
+          sdk_quiet_gpio = 1;
+          bool ret = supla_esp_gpio_rs_autocalibrate(r, atoi(ops_tok[5]) != 0);
+          sdk_quiet_gpio = 0;
+          fw_hook_rs_log = saved;
+          sdk_out("AC %d %d %u %u %d %d", ret ? 1 : 0, r->autoCal_step, (unsigned)*r->auto_closing_time, (unsigned)*r->auto_opening_time,
+                  *r->position, (r->flags & RS_VALUE_FLAG_CALIBRATION_FAILED) ? 1 : 0);
+          /* leave a quiet shutter behind for the next probe */
+          r->autoCal_step = 0; r->up_time = r->down_time = 0;
+          supla_esp_gpio_rs_set_relay(r, RS_RELAY_OFF, 1, 0);
+          sdk_advance_us(1500000);
+        }
       } else if (!strcmp(op, "rscancel") && ops_ntok == 2) { /* forget the task of shutter i (set-up between requests) */
         int i = atoi(ops_tok[1]);
         if (i >= 0 && i < RS_MAX_COUNT && supla_rs_cfg[i].up) supla_esp_gpio_rs_cancel_task(&supla_rs_cfg[i]);
